@@ -117,7 +117,8 @@ CLAIMS = {
                 'symbolic batch from an arbitrary state: for a universally quantified coin id q the post-state entry equals '
                 'the reference ((coins minus inputs) plus non-destroyed outputs with the new-token rewrite, the block height, '
                 'plus faucet markers); accepted => every input existed or is created in the batch and none repeats; '
-                'rejected => state untouched; no reachable panic.',
+                'rejected => state untouched; no reachable panic. The state may be in the middle of a block: its transaction set holds '
+                'one arbitrary transaction applied by an earlier call at the same height.',
         'design_ref': 'DESIGN.md §8 C02',
         'note': COMMON_NOTE + ' Bounds: 1 tx x (2 in, 2 out) and 2 tx x (1,1) (thorough: + (2,1)+(1,2); the input-loading kernel alone also on (2,2)+(2,2) and three transactions), all TxKinds except '
                 'DoscMint, height >= 1. CoinMapping methods enter through their contracts (discharged in C20); covenants '
@@ -243,8 +244,8 @@ CLAIMS = {
         'text': 'Symbolic execution of the MIR of load_stake_info / stake_is_consistent, the lock test of check_tx_validity, '
                 'next_unsealed and StakeSet::unlock_old: a stake is registered iff its data decodes, its first output is SYM '
                 'of the declared amount, it starts after the current epoch and ends after it starts (grandfathered heights '
-                'carved out); any input created by a registered or just-registered stake transaction is rejected with '
-                'CoinLocked; next_unsealed keeps exactly the stakes whose end epoch is >= the epoch of the next height (so '
+                'carved out); any input created by a registered or just-registered stake transaction (each of the two symbolically '
+                'present or absent: the state may hold no stake at all) is rejected with CoinLocked; next_unsealed keeps exactly the stakes whose end epoch is >= the epoch of the next height (so '
                 'locked through that epoch, free from the next). Voting sums are C14.',
         'design_ref': 'DESIGN.md §8 C13',
         'note': COMMON_NOTE + ' <= 2 stakes + 1 new, 2 inputs; decode of the data bytes is an arbitrary function of the bytes; '
@@ -266,7 +267,8 @@ CLAIMS = {
                 'validate_tx_scripts: accepted on mainnet => the transaction hash is the one grandfathered constant; accepted '
                 '=> its dedup marker was absent; accepted and not grandfathered => the marker is present afterwards; marker '
                 'present => rejected as duplicate; the same faucet twice in a batch is rejected; a coin locked to the '
-                'all-zero address (the marker) can never pass script validation, so a marker is never removed -- by '
+                'all-zero address (the marker) can never pass script validation, and check_tx_validity accepts no transaction of any '
+                'kind -- faucets included -- with such a coin among its inputs (call-site kernel), so a marker is never removed -- by '
                 'induction a faucet is accepted at most once over the life of the chain.',
         'design_ref': 'DESIGN.md §8 C19',
         'note': COMMON_NOTE + ' A-HASH incl. no preimage of the all-zero hash; arbitrary coin tree; all networks.',
